@@ -151,9 +151,12 @@ structure Policy where
   /-- what master::get_root_uid() answers now, when it no longer is the name of the first load (`none`: still `cfg.root`);
       get_bb_uid() may change as well - set_master ignores it after the first load, so the model has nothing for it -/
   root : Nat → Option Name := fun _ => none
+  /-- master::valid_object(ob) for a blueprint of that name that load_object is about to create (`none`: the master has no
+      opinion - nothing is logged, the load goes on) -/
+  vo : Nat → String → Option Ans := fun _ _ => none
 
 inductive Err where
-  | noEuidLoad | noEuidClone | exportZero | badArg | policy | simulDest | bindDenied
+  | noEuidLoad | noEuidClone | exportZero | badArg | policy | simulDest | bindDenied | voDenied
   deriving Repr, BEq, DecidableEq
 
 inductive Res where
@@ -184,6 +187,7 @@ structure StepRec where
   vsnap : List Oid := []        -- ids whose object is virtual (virtualp) at the snapshot
   vb : Option (Oid × Oid × Ans) := none    -- master::valid_bind was asked (doer = old owner, new owner, verdict)
   bindTo : Option Oid := none   -- this segment starts a bind(): the function will run as that object
+  vo : Option (String × Ans) := none      -- master::valid_object was asked about the blueprint of that name
   fpOwner : Option Oid := none  -- this segment ends a via / bind op: its result is geteuid(function) of a function owned by that object
   deriving Repr, BEq, DecidableEq
 
@@ -446,6 +450,25 @@ def needsCompile (w : World) (A : Obj) (p : Path) : Bool :=
   decide (¬ ((p.name ∉ w.loaded ∨ p.name ∈ w.half) ∧ getO w.objs p.oid ≠ none) ∧ p.name ∉ w.loaded ∧
     ¬ (A.oid ≠ masterOid ∧ A.euid = none) ∧ p.exists = false)
 
+/-- load_object, once the new blueprint is in the object table (default uid "NONAME"): master valid_object(ob) through the
+    non-catching apply.  An error in it unwinds out of load_object and leaves the loaded, never created object behind
+    (`half`, like an error in creator_file); a refusing verdict (`mret && !MASTER_APPROVED(mret)`) destructs the object again
+    and raises the error; an approving one lets the load go on (`k`) - the verification master closes the segment with a
+    snapshot then.  `active`: the op really reaches this point. -/
+def withVo (pol : Policy) (i : Nat) (active : Bool) (w : World) (a : Oid) (op : Op) (first : Bool) (name : String)
+    (k : Bool → World × List StepRec) : World × List StepRec :=
+  match (if active then pol.vo i name else none) with
+  | none => k first
+  | some v =>
+    if v = .err then
+      let w1 : World := { w with loaded := name :: w.loaded, half := name :: w.half }
+      (w1, [{ seg w1 a op none [] (some (.err .policy)) first with vo := some (name, v) }])
+    else if v.approved = false then
+      (w, [{ seg w a op none [] (some (.err .voDenied)) first with vo := some (name, v) }])
+    else
+      let r := k false
+      (r.1, { seg w a op none [] none first with vo := some (name, v) } :: r.2)
+
 /-- load_object reaches creator_file: not found in the object table, euid test passed, the file exists -/
 def loadCreates (w : World) (A : Obj) (p : Path) : Bool :=
   decide (¬ ((p.name ∉ w.loaded ∨ p.name ∈ w.half) ∧ getO w.objs p.oid ≠ none) ∧ p.name ∉ w.loaded ∧
@@ -467,8 +490,9 @@ def execLoad (cfg : Cfg) (pol : Policy) (i : Nat) (run : Run) (sub : Sub) (w : W
     let v := virtCore pol i run w a (.load p) true p false
     (v.1, v.2.1 ++ [seg v.1 a (.load p) none [] (some v.2.2.res) v.2.1.isEmpty])
   else
-    withCfPre pol i run (loadCreates w A p) w a (.load p) true p.name
-      (fun W A2 f => execLoadCore cfg pol i sub W a A2 p f)
+    withVo pol i (loadCreates w A p) w a (.load p) true p.name fun f0 =>
+      withCfPre pol i run (loadCreates w A p) w a (.load p) f0 p.name
+        (fun W A2 f => execLoadCore cfg pol i sub W a A2 p f)
 
 /-- second half of clone_object from world `w` (after the blueprint's create() script): the clone is made by the
     same object `A'` with the uids it has now, then the clone's create() script runs -/
@@ -527,7 +551,8 @@ def execClone (cfg : Cfg) (pol : Policy) (i : Nat) (run : Run) (sub : Sub) (w : 
         (t.1, v.2.1 ++ t.2)
       | out => (v.1, v.2.1 ++ [seg v.1 a op none [] (some out.res) v.2.1.isEmpty])
     else
-      withCfPre pol i run true w a op true p.name (fun W A2 f => cloneBlueprint cfg pol i run sub W a A2 newOid p f)
+      withVo pol i true w a op true p.name fun f0 =>
+        withCfPre pol i run true w a op f0 p.name (fun W A2 f => cloneBlueprint cfg pol i run sub W a A2 newOid p f)
 
 def execReload (sub : Sub) (w : World) (a : Oid) (t : Oid) : World × List StepRec :=
   let x := doReload w t
